@@ -10,7 +10,7 @@ package writer
 //@ ghostdecl bulkItems int
 
 //@ func HandleBulkBody
-//@   props C15
+//@   props C15 C13
 //@   ghostinit ghost(0, "bulkFailed") == 0 && ghost(0, "bulkItems") == 0
 //@   loop 1:
 //@     invariant overallError == (ghost(0, "bulkFailed") == 1)
@@ -28,6 +28,13 @@ package writer
 //@     ghostset ghost(0, "bulkItems") = ghost(0, "bulkItems") + 1
 //@   site mapupdate response["items"] #1:
 //@     assert [one-item-per-action] ghost(0, "bulkItems") == inCount
+// C13 (documents of one organisation never land in another organisation's
+// store): the index-name -> stream-id cache is keyed by the bare index name, and
+// a stream id embeds the organisation; a hit is used without looking at the
+// organisation.  So the cache handed to ProcessIndexRequestPle is one this very
+// request created (it can only hold ids computed for this request's org).
+//@   site call ProcessIndexRequestPle #1:
+//@     assert [stream-id-cache-is-private-to-this-request] fresh(idxToStreamIdCache) && arg4 == myid
 //@ end
 
 // C15 (one item per action, an unknown action affects only its own item): the
